@@ -63,6 +63,16 @@ class Hooks(object):
     def on_access(self, I, st, inst, kind, ptr, nbytes):
         pass
 
+    widen_on_entry = False
+    widen_keep_same = True
+
+    def on_store(self, I, st, inst, ptr, value, nbytes):
+        pass
+
+    def widen_value(self, I, st, fn, header, name, current):
+        """Replacement for a loop-carried slot at widening (None = default havoc with candidate invariants)."""
+        return None
+
 
 TRAITS_RE = re.compile(r'^std::char_traits<([\w ]+)>::(\w+)\(')
 ELT = {'char': 1, 'wchar_t': 4, 'char16_t': 2, 'char32_t': 4, 'char8_t': 1}
@@ -524,7 +534,13 @@ class Interp(object):
                         want = (y.c == 1) if pred == 'eq' else (y.c != 1)
                         if not self.assume(st, c, want):
                             return False
-                return st.assume_eq0(la - lb) if pred == 'eq' else st.assume_ne0(la - lb)
+                ok = st.assume_eq0(la - lb) if pred == 'eq' else st.assume_ne0(la - lb)
+                if ok:
+                    for x, y in ((la, lb), (lb, la)):
+                        if not y.t:
+                            if not self.refine_masked(st, x, y.c, pred == 'eq'):
+                                return False
+                return ok
             if pred[0] == 'u':
                 la, lb = self.ulin(st, a), self.ulin(st, b)
             else:
@@ -534,6 +550,29 @@ class Interp(object):
                 return self.assume_mixed(st, pred, a, b)
             return self.assume_rel(st, pred[1:], lb - la)
         return True
+
+    def refine_masked(self, st, x, c, equal):
+        """x is  op(base, const) (+0): narrow the range of base by enumeration when it is small."""
+        sa = x.single_atom()
+        if sa is None or sa[1] != 1 or sa[2] != 0 or not isinstance(sa[0], tuple):
+            return True
+        at = sa[0]
+        if at[0] not in ('and', 'or', 'xor', 'lshr') or not isinstance(at[1], Lin) or not isinstance(at[2], int):
+            return True
+        b = at[1].single_atom()
+        if b is None or b[1] != 1:
+            return True
+        base, _, off = b
+        lo, hi = st.arange(base)
+        if lo <= -INF or hi >= INF or hi - lo > 4096:
+            return True
+        k = at[2]
+        f = {'and': lambda v: v & k, 'or': lambda v: v | k, 'xor': lambda v: v ^ k, 'lshr': lambda v: v >> k}[at[0]]
+        good = [v for v in range(lo, hi + 1) if (f(v + off) == c) == equal and v + off >= 0]
+        if not good:
+            return False
+        st.rng[base] = (good[0], good[-1])
+        return st.propagate()
 
     def assume_mixed(self, st, pred, a, b):
         """Signed compare on a value only known in unsigned form (or vice versa) against a constant."""
@@ -701,6 +740,7 @@ class Interp(object):
         if not isinstance(p, PtrV):
             return True
         self.h.on_access(self, st, inst, 'store', p, nbytes)
+        self.h.on_store(self, st, inst, p, v, nbytes)
         chk = self.access_check(st, inst, 'store', p, nbytes)
         if chk == 'null':
             return False
@@ -822,6 +862,7 @@ class Interp(object):
             if rec[1]:
                 # arbitrary iteration completed: verify candidate invariants, then stop
                 self.check_invariants(st, fr, dst, src)
+                self.record_iter_end(st, fr, dst, src)
                 self.h.on_backedge(self, st, dst)
                 self.end_path(st, 'backedge', info=(fn.name, dst))
                 return 'end'
@@ -844,8 +885,16 @@ class Interp(object):
                     break
             else:
                 raise Unmodelled('phi without incoming for block %d in %s' % (src, fn.dem))
-        if dst in loops and not widen_now and fr.loops[dst][2] is None:
-            fr.loops[dst][2] = dict(newvals)           # values on loop entry (+ '__guards__')
+        first_entry = dst in loops and not widen_now and fr.loops[dst][2] is None
+        if first_entry:
+            snap = dict((('phi', k), v) for k, v in newvals.items())
+            fr.loops[dst][2] = snap                    # values on loop entry (+ '__guards__')
+            if self.h.widen_on_entry:
+                widen_now = True
+            else:
+                slots, _c, _w, _s = self.carried_slots(st, fr, dst, phis, newvals)
+                for (key, v, t) in slots:
+                    snap[self.slot_name(key)] = v
         if widen_now:
             self.widen(st, fr, dst, src, phis, newvals)
         else:
@@ -856,80 +905,212 @@ class Interp(object):
         st.trail.append((fn.name, dst))
         return None
 
+    # ---- widening: loop-carried slots are header phis and memory cells written inside the loop
+    def loop_written_cells(self, st, fr, body):
+        """(cells, objects): constant cells / whole objects that stores or calls inside the loop may write."""
+        fn = fr.fn
+        cells, objs = [], []
+        for b in body:
+            for i in fn.blocks[b].insts:
+                if i.op == 'store':
+                    try:
+                        p = self.val(st, i.a[1])
+                    except Unmodelled:
+                        p = None
+                    if isinstance(p, PtrV) and p.obj is not None and p.obj in st.objs:
+                        if not p.off.t and not self.defined_in(fn, i.a[1], body):
+                            cells.append((p.obj, p.off.c, i.d.get('size', 8)))
+                        else:
+                            objs.append(p.obj)
+                elif i.op in ('call', 'invoke'):
+                    for j in self.call_write_args(i):
+                        if j < len(i.a):
+                            try:
+                                p = self.val(st, i.a[j])
+                            except Unmodelled:
+                                continue
+                            if isinstance(p, PtrV) and p.obj is not None and p.obj in st.objs:
+                                objs.append(p.obj)
+        return cells, objs
+
+    def carried_slots(self, st, fr, header, phis, newvals):
+        """List of (key, current value, setter) for every loop-carried scalar."""
+        loops, back = loop_info(fr.fn)
+        body = loops[header]
+        slots = []
+        for i in phis:
+            slots.append((('phi', i.id), newvals[i.id], i.ty))
+        cells, objs = self.loop_written_cells(st, fr, body)
+        seen = set()
+        for (oid, off, sz) in cells:
+            if (oid, off) in seen:
+                continue
+            seen.add((oid, off))
+            o = st.objs[oid]
+            c = o.cells.get(off)
+            if c is not None and isinstance(c[1], (IntV, PtrV)):
+                slots.append((('cell', oid, off, c[0]), c[1], None))
+        whole = []
+        for oid in objs:
+            if oid in whole:
+                continue
+            whole.append(oid)
+            o = st.objs[oid]
+            # small scalar objects (locals passed by reference) are carried cell by cell; anything else is havoc'd
+            if o.kind == 'alloca' and not o.regions and o.cells and o.size is not None and not o.size.t and o.size.c <= 64:
+                for off, (sz, v) in sorted(o.cells.items()):
+                    if (oid, off) not in seen and isinstance(v, (IntV, PtrV)):
+                        seen.add((oid, off))
+                        slots.append((('cell', oid, off, sz), v, None))
+        return slots, cells, whole, seen
+
+    def slot_name(self, key):
+        if key[0] == 'phi':
+            return key
+        return ('cell', key[1].split('#')[0], key[2])
+
     def widen(self, st, fr, header, src, phis, newvals):
         fn = fr.fn
-        loops, back = loop_info(fn)
-        body = loops[header]
         rec = fr.loops[header]
         rec[1] = True
         entry = rec[2] or {}
         key0 = (fn.name, header)
         used = []
-        # havoc memory written inside the loop
-        self.havoc_loop_memory(st, fr, body)
-        for i in phis:
-            nv = newvals[i.id]
-            ev = entry.get(i.id)
-            if isinstance(nv, IntV):
+        slots, cells, whole, carried = self.carried_slots(st, fr, header, phis, newvals)
+        # havoc everything else the loop may write
+        for (oid, off, sz) in cells:
+            if (oid, off) not in carried:
+                o = st.objs[oid]
+                o.cells.pop(off, None)
+                o.version += 1
+                o.regions.append((Lin.const(off), Lin.const(sz), ('havoc', 'loop'), o.version))
+        for oid in whole:
+            o = st.objs[oid]
+            if any(k[0] == 'cell' and k[1] == oid for (k, v, t) in slots):
+                continue
+            self.havoc_obj(st, oid, 'loop')
+        guards = entry.get('__guards__', ())
+        begin = {}
+        for (key, nv, ty) in slots:
+            name = self.slot_name(key)
+            ev = entry.get(name, nv if self.h.widen_on_entry else None)
+            ov = self.h.widen_value(self, st, fn, header, name, nv)
+            k_same = key0 + (name, 'same')
+            if ov is not None:
+                w = ov
+            elif k_same not in self.inv_disabled and isinstance(nv, (IntV, PtrV)) and self.h.widen_keep_same:
+                # candidate: the slot is loop-invariant (verified at every back edge)
+                w = nv
+                used.append((name, 'same', nv))
+            elif isinstance(nv, IntV):
                 w = self.fresh_int(st, nv.bits, 'w', signed=(nv.kind == 's'))
-                # candidate invariants relative to the entry value
                 if isinstance(ev, IntV) and ev.kind == nv.kind:
                     for rel in ('ge', 'le'):
-                        key = key0 + (i.id, rel)
-                        if key in self.inv_disabled:
+                        k2 = key0 + (name, rel)
+                        if k2 in self.inv_disabled:
                             continue
                         d = (nv.lin - ev.lin) if rel == 'ge' else (ev.lin - nv.lin)
                         if st.is_ge0(d) is True:
-                            dd = (w.lin - ev.lin) if rel == 'ge' else (ev.lin - w.lin)
-                            st.assume_ge0(dd)
-                            used.append((i.id, rel, ev))
+                            st.assume_ge0((w.lin - ev.lin) if rel == 'ge' else (ev.lin - w.lin))
+                            used.append((name, rel, ev))
                         else:
-                            self.inv_disabled.add(key)
+                            self.inv_disabled.add(k2)
                 if nv.kind == 'u':
-                    for gi, T in enumerate(entry.get('__guards__', ())):
+                    for gi, T in enumerate(guards):
+                        if not isinstance(T, Lin):
+                            continue
                         for mult in (1, 2):
-                            key = key0 + (i.id, 'g%d_%d' % (gi, mult))
-                            if key in self.inv_disabled:
+                            k2 = key0 + (name, 'g%d_%d' % (gi, mult))
+                            if k2 in self.inv_disabled:
                                 continue
                             bound = T.scale(mult)
                             if st.is_ge0(bound - nv.lin) is True:
                                 st.assume_ge0(bound - w.lin)
-                                used.append((i.id, 'g%d_%d' % (gi, mult), IntV(nv.bits, bound, 'u')))
+                                used.append((name, 'g%d_%d' % (gi, mult), IntV(nv.bits, bound, 'u')))
                             else:
-                                self.inv_disabled.add(key)
-                fr.regs[i.id] = w
+                                self.inv_disabled.add(k2)
             elif isinstance(nv, PtrV) and nv.obj is not None:
                 a = self.fresh('wo')
                 st.rng[a] = (-(1 << ADDR_BITS), (1 << ADDR_BITS))
                 woff = Lin.atom(a)
+                w = PtrV(nv.obj, woff, nv.nz)
                 if isinstance(ev, PtrV) and ev.obj == nv.obj:
                     for rel in ('ge', 'le'):
-                        key = key0 + (i.id, rel)
-                        if key in self.inv_disabled:
+                        k2 = key0 + (name, rel)
+                        if k2 in self.inv_disabled:
                             continue
                         d = (nv.off - ev.off) if rel == 'ge' else (ev.off - nv.off)
                         if st.is_ge0(d) is True:
-                            dd = (woff - ev.off) if rel == 'ge' else (ev.off - woff)
-                            st.assume_ge0(dd)
-                            used.append((i.id, rel, ev))
+                            st.assume_ge0((woff - ev.off) if rel == 'ge' else (ev.off - woff))
+                            used.append((name, rel, ev))
                         else:
-                            self.inv_disabled.add(key)
-                fr.regs[i.id] = PtrV(nv.obj, woff, nv.nz)
+                            self.inv_disabled.add(k2)
+                pguards = [T for T in guards if isinstance(T, tuple) and T[0] == nv.obj]
+                for v2 in list(fr.regs.values()):
+                    if isinstance(v2, PtrV) and v2.obj == nv.obj and v2 is not nv and (v2.obj, v2.off) not in pguards and len(pguards) < 6:
+                        if v2.off != nv.off:
+                            pguards.append((v2.obj, v2.off))
+                for gi, T in enumerate(pguards):
+                    k2 = key0 + (name, 'pg%s' % (T[1],))
+                    if k2 in self.inv_disabled:
+                        continue
+                    if st.is_ge0(T[1] - nv.off) is True:
+                        st.assume_ge0(T[1] - woff)
+                        used.append((name, 'pg%s' % (T[1],), PtrV(nv.obj, T[1])))
+                    else:
+                        self.inv_disabled.add(k2)
             else:
-                fr.regs[i.id] = self.fresh_for_type(st, i.ty, 'w')
+                w = self.fresh_for_type(st, ty or 'i64', 'w')
+            if key[0] == 'phi':
+                fr.regs[key[1]] = w
+            else:
+                o = st.objs[key[1]]
+                o.cells[key[2]] = (key[3], w)
+                o.version += 1
+            begin[name] = w
+        st.flags['wbegin:' + fn.name] = begin
         extra = self.h.loop_candidates(self, st, fn, header, phis)
         for (name, lin) in extra:
-            key = key0 + (name, 'x')
-            if key in self.inv_disabled:
+            k2 = key0 + (name, 'x')
+            if k2 in self.inv_disabled:
                 continue
             st.assume_ge0(lin(st, fr))
             used.append((name, 'x', lin))
-        rec.append(used)
+        while len(rec) < 4:
+            rec.append(None)
+        rec[3] = used
         st.ev('widen', fn.name, header)
+
+    def slot_value(self, st, fr, name, newvals):
+        if name[0] == 'phi':
+            return newvals.get(name[1])
+        for oid, o in st.objs.items():
+            if oid.split('#')[0] == name[1] and oid in fr.allocas:
+                c = o.cells.get(name[2])
+                return c[1] if c else None
+        for oid, o in st.objs.items():
+            if oid.split('#')[0] == name[1]:
+                c = o.cells.get(name[2])
+                return c[1] if c else None
+        return None
+
+    def record_iter_end(self, st, fr, header, src):
+        fn = fr.fn
+        begin = st.flags.get('wbegin:' + fn.name)
+        if not begin:
+            return
+        newvals = {}
+        for i in fn.blocks[header].insts:
+            if i.op != 'phi':
+                break
+            for (v, b) in i.d['inc']:
+                if b == src:
+                    newvals[i.id] = self.val(st, v)
+        st.flags['wend:' + fn.name] = dict((name, self.slot_value(st, fr, name, newvals)) for name in begin)
 
     def check_invariants(self, st, fr, header, src):
         rec = fr.loops[header]
-        if len(rec) < 4:
+        if len(rec) < 4 or rec[3] is None:
             return
         fn = fr.fn
         blk = fn.blocks[header]
@@ -940,16 +1121,23 @@ class Interp(object):
             for (v, b) in i.d['inc']:
                 if b == src:
                     newvals[i.id] = self.val(st, v)
-        for (pid, rel, ev) in rec[3]:
-            key = (fn.name, header, pid, rel)
+        for (name, rel, ev) in rec[3]:
+            key = (fn.name, header, name, rel)
             if rel == 'x':
-                # rule-supplied: evaluate on the new phi values
                 saved = dict((k, fr.regs.get(k)) for k in newvals)
                 fr.regs.update(newvals)
                 ok = st.is_ge0(ev(st, fr)) is True
                 fr.regs.update(saved)
+            elif rel == 'same':
+                nv = self.slot_value(st, fr, name, newvals)
+                if isinstance(nv, IntV) and isinstance(ev, IntV):
+                    ok = nv.kind == ev.kind and st.is_eq0(nv.lin - ev.lin) is True
+                elif isinstance(nv, PtrV) and isinstance(ev, PtrV):
+                    ok = nv.obj == ev.obj and (nv.obj is None or st.is_eq0(nv.off - ev.off) is True)
+                else:
+                    ok = False
             else:
-                nv = newvals.get(pid)
+                nv = self.slot_value(st, fr, name, newvals)
                 if isinstance(nv, IntV) and isinstance(ev, IntV):
                     d = (nv.lin - ev.lin) if rel == 'ge' else (ev.lin - nv.lin)
                     ok = nv.kind == ev.kind and st.is_ge0(d) is True
@@ -960,36 +1148,6 @@ class Interp(object):
                     ok = False
             if not ok:
                 self.inv_failed.add(key)
-
-    def havoc_loop_memory(self, st, fr, body):
-        fn = fr.fn
-        for b in body:
-            for i in fn.blocks[b].insts:
-                if i.op == 'store':
-                    p = None
-                    try:
-                        p = self.val(st, i.a[1])
-                    except Unmodelled:
-                        p = None
-                    if isinstance(p, PtrV) and p.obj is not None:
-                        o = st.objs.get(p.obj)
-                        if o is not None:
-                            if not p.off.t and not self.defined_in(fn, i.a[1], body):
-                                o.cells.pop(p.off.c, None)
-                                o.version += 1
-                                o.regions.append((p.off, Lin.const(i.d.get('size', 8)), ('havoc', 'loop'), o.version))
-                            else:
-                                self.havoc_obj(st, p.obj, 'loop')
-                elif i.op in ('call', 'invoke'):
-                    ws = self.call_write_args(i)
-                    for j in ws:
-                        if j < len(i.a):
-                            try:
-                                p = self.val(st, i.a[j])
-                            except Unmodelled:
-                                continue
-                            if isinstance(p, PtrV) and p.obj is not None:
-                                self.havoc_obj(st, p.obj, 'loop-call')
 
     def defined_in(self, fn, op, body):
         if op[0] != 'v':
@@ -1031,6 +1189,15 @@ class Interp(object):
                     cond = ('opaque', self.fresh('br'))
             r = self.decide(st, cond)
             t, f = inst.d['succ']
+            if cond[0] == 'icmp' and fr.loops and isinstance(cond[2], PtrV) and isinstance(cond[3], PtrV) and \
+                    cond[2].obj is not None and cond[2].obj == cond[3].obj:
+                loops_, back_ = loop_info(fr.fn)
+                for hdr, rec in fr.loops.items():
+                    if not rec[1] and fr.block in loops_.get(hdr, ()) and isinstance(rec[2], dict):
+                        g = rec[2].setdefault('__guards__', [])
+                        for x in (cond[2], cond[3]):
+                            if len(g) < 8 and (x.obj, x.off) not in g:
+                                g.append((x.obj, x.off))
             if cond[0] == 'icmp' and fr.loops and isinstance(cond[2], IntV) and isinstance(cond[3], IntV):
                 loops_, back_ = loop_info(fr.fn)
                 for hdr, rec in fr.loops.items():
@@ -1263,6 +1430,8 @@ class Interp(object):
         if bits == 1:
             if c is not None:
                 return IntV(1, a.lin, 'u')
+            if not a.lin.t:
+                return IntV(1, Lin.const(a.lin.c & 1), 'u')
             lo, hi = st.range(a.lin)
             if lo >= 0 and hi <= 1:
                 name = self.fresh('c')
@@ -1421,11 +1590,22 @@ class Interp(object):
                 if not lb.t and (lb.c & (lb.c + 1)) == 0 and ahi <= lb.c and alo >= 0:
                     return IntV(bits, la, 'u')
                 rng = (0, min(ahi, bhi))
+                if not lb.t and alo >= 0:
+                    reach = lb.c & ((1 << max(ahi, 0).bit_length()) - 1)
+                    if reach == 0:
+                        return self.const_int(bits, 0)
+                    rng = (0, min(ahi, reach))
             else:
                 if not lb.t and lb.c == 0:
                     return IntV(bits, la, 'u')
                 top = max(ahi, bhi)
                 rng = (max(alo, blo) if op == 'or' else 0, (1 << max(top, 0).bit_length()) - 1)
+            if not lb.t and alo >= 0 and ahi - alo <= 4096:
+                k = lb.c
+                vals = [(v & k) if op == 'and' else (v | k) if op == 'or' else (v ^ k) for v in range(alo, ahi + 1)]
+                rng = (min(vals), max(vals))
+                if rng[0] == rng[1]:
+                    return self.const_int(bits, rng[0])
             if lb.t and repr(lb) < repr(la):
                 la, lb = lb, la
             return self.opaque_op(st, op, bits, la, lb.c if not lb.t else lb, rng)
@@ -1445,6 +1625,8 @@ class Interp(object):
                 if not la.t:
                     return self.const_int(bits, la.c >> c)
                 lo, hi = st.range(la)
+                if lo >= 0 and (lo >> c) == (min(hi, M - 1) >> c):
+                    return self.const_int(bits, lo >> c)
                 return self.opaque_op(st, 'lshr', bits, la, c, (max(lo, 0) >> c, min(hi, M - 1) >> c))
             return self.fresh_int(st, bits, 'lshr')
         if op == 'ashr':
